@@ -77,7 +77,15 @@ func IsLocal(ip net.IP) bool {
 }
 
 // Removes local LAN address ICE candidates
-func StripLocalAddresses(str string) string {
+func StripLocalAddresses(str string) (stripped string) {
+	// The SDP parser (pion/sdp v3.0.5) panics on some malformed input, e.g.
+	// an "r=" line with fewer than two fields. Treat that like any other
+	// parse error: return the input unchanged.
+	defer func() {
+		if r := recover(); r != nil {
+			stripped = str
+		}
+	}()
 	var desc sdp.SessionDescription
 	err := desc.Unmarshal([]byte(str))
 	if err != nil {
